@@ -120,75 +120,125 @@ theorem fetch_parsed (r : Rev) (f : Faults) (c : Cache) (hinv : ∀ e, c r.id = 
 
 /-! ### one reconcile -/
 
+theorem updO_ok (f : Faults) (h : f.updO = .ok) : f.stale = false ∧ f.upd = .ok := by
+  unfold Faults.updO at h
+  cases hu : f.upd <;> cases hs : f.stale <;> simp [hu, hs] at h ⊢
+
+theorem updO_stale (f : Faults) (hs : f.stale = true) : f.updO ≠ .ok := by
+  intro h; have := (updO_ok f h).1; rw [hs] at this; cases this
+
+theorem finO_stale (f : Faults) (hs : f.stale = true) : f.finO ≠ .ok := by
+  unfold Faults.finO
+  cases hf : f.fin <;> simp [hs]
+
+theorem setHealth_verif (f : Faults) (st : RevSt) (h : Health) : (setHealth f st h).verif = st.verif := by
+  unfold setHealth; split <;> rfl
+
+theorem setHealth_stale (f : Faults) (st : RevSt) (h : Health) (hs : f.stale = true) : setHealth f st h = st := by
+  simp [setHealth, Faults.statO, hs]
+
+/-- what must hold for the gates to let a package through to `Establish` -/
+theorem gates_est (r : Rev) (f : Faults) (st : RevSt) (p : Pkg) (objs : List Obj)
+    (h : (gates r f st p).2.est = some objs) :
+    objs = p.objs ∧ lint r.ptype p = true ∧ (r.ignore = true ∨ compatible p = true) ∧ f.updO = .ok := by
+  unfold gates at h
+  split at h
+  · cases h
+  · rename_i hl
+    have hl' : lint r.ptype p = true := by simpa using hl
+    split at h
+    · cases h
+    · split at h
+      · cases h
+      · cases h
+      · rename_i hu
+        split at h
+        · split at h <;> cases h
+        · rename_i hcmp
+          have hc' : r.ignore = true ∨ compatible p = true := by
+            cases hi : r.ignore <;> cases hcp : compatible p <;> simp_all
+          split at h
+          · split at h <;> (simp only [Option.some.injEq] at h; exact ⟨h.symm, hl', hc', hu⟩)
+          · split at h <;> (simp only [Option.some.injEq] at h; exact ⟨h.symm, hl', hc', hu⟩)
+
+theorem install_cache (fixed : Bool) (r : Rev) (f : Faults) (c : Cache) (st : RevSt) :
+    (install fixed r f c st).1 = (fetch fixed r f c).1 := by
+  unfold install
+  split <;> rename_i heq <;> rw [heq]
+
+theorem install_est (fixed : Bool) (r : Rev) (f : Faults) (c : Cache) (st : RevSt) (objs : List Obj)
+    (h : (install fixed r f c st).2.2.est = some objs) :
+    ∃ p, (fetch fixed r f c).2 = .parsed (some p) ∧ (gates r f st p).2.est = some objs := by
+  unfold install at h
+  split at h
+  · cases h
+  · cases h
+  · rename_i c' p heq
+    exact ⟨p, by rw [heq], h⟩
+
+/-- Effect of a whole reconcile on the cache: nothing, the revision's own entry removed
+(deletion), or what `fetch` does. -/
+theorem recStep_cache_cases (fixed feature : Bool) (r : Rev) (f : Faults) (c : Cache) (st : RevSt) :
+    (recStep fixed feature r f c st).1 = c ∨ (recStep fixed feature r f c st).1 = c.erase r.key ∨
+    (recStep fixed feature r f c st).1 = (fetch fixed r f c).1 := by
+  unfold recStep
+  repeat' split
+  all_goals first
+    | exact Or.inl rfl
+    | exact Or.inr (Or.inl rfl)
+    | exact Or.inr (Or.inr (install_cache _ _ _ _ _))
+
 /-- Effect of a whole reconcile (fixed code) on any cache path. -/
 theorem recStep_cache (feature : Bool) (r : Rev) (f : Faults) (c : Cache) (st : RevSt) (k : String) :
     (recStep true feature r f c st).1 k = c k ∨ (recStep true feature r f c st).1 k = none ∨
     (k = r.key ∧ r.never = false ∧ ∃ e, (recStep true feature r f c st).1 k = some e ∧ EntryOK r e) := by
-  unfold recStep
-  split
+  rcases recStep_cache_cases true feature r f c st with h | h | h <;> rw [h]
   · exact Or.inl rfl
-  · split
-    · split
-      · exact Or.inl rfl
-      · by_cases hk : k = r.key
-        · right; left; simp [Cache.erase, hk]
-        · left; simp [Cache.erase, hk]
-    · split
-      · split <;> exact Or.inl rfl
-      · simp only []
-        split
-        · exact Or.inl rfl
-        · have := fetch_cache r f c k
-          split <;> rename_i heq <;> rw [heq] at this <;> exact this
+  · by_cases hk : k = r.key
+    · right; left; simp [Cache.erase, hk]
+    · left; simp [Cache.erase, hk]
+  · exact fetch_cache r f c k
 
 /-- What must have happened for `Establish` to be reached. -/
 theorem recStep_est (feature : Bool) (r : Rev) (f : Faults) (c : Cache) (st : RevSt) (objs : List Obj)
     (h : (recStep true feature r f c st).2.2.est = some objs) :
     st.present = true ∧ st.deleting = false ∧ (feature = true → st.verif.isTrue = true) ∧
     ∃ p, (fetch true r f c).2 = .parsed (some p) ∧ objs = p.objs ∧ lint r.ptype p = true ∧
-      (r.ignore = true ∨ compatible p = true) ∧ f.upd = .ok := by
+      (r.ignore = true ∨ compatible p = true) ∧ f.upd = .ok ∧ f.stale = false ∧ f.getE = .ok := by
   unfold recStep at h
   split at h
   · cases h
-  · rename_i hp
+  · rename_i hg
     split at h
-    · split at h <;> cases h
-    · rename_i hd
+    · cases h
+    · rename_i hp
       split at h
-      · split at h <;> cases h
-      · rename_i hv
-        simp only [] at h
-        split at h
+      · split at h
         · cases h
-        · refine ⟨by simpa using hp, by simpa using hd, ?_, ?_⟩
-          · intro hf; subst hf; simpa using hv
+        · split at h <;> cases h
+      · rename_i hd
+        split at h
+        · split at h
+          · split at h <;> cases h
+          · cases h
+        · rename_i hv
+          split at h
+          · cases h
+          · cases h
+          · cases h
           · split at h
-            · cases h
-            · cases h
-            · rename_i c' p heq
-              refine ⟨p, by rw [heq], ?_⟩
-              simp only [] at h
-              unfold gates at h
-              split at h
-              · cases h
-              · rename_i hl
-                split at h
-                · cases h
-                · split at h
-                  · cases h
-                  · cases h
-                  · rename_i hu
-                    split at h
-                    · cases h
-                    · rename_i hcmp
-                      have hl' : lint r.ptype p = true := by simpa using hl
-                      have hc' : r.ignore = true ∨ compatible p = true := by
-                        cases hi : r.ignore <;> cases hcp : compatible p <;> simp_all
-                      split at h
-                      · simp only [Option.some.injEq] at h
-                        exact ⟨h.symm, hl', hc', hu⟩
-                      · simp only [Option.some.injEq] at h
-                        exact ⟨h.symm, hl', hc', hu⟩
+            · split at h <;> cases h
+            · obtain ⟨p, hf, hg2⟩ := install_est _ _ _ _ _ _ h
+              obtain ⟨ho, hl, hc, hu⟩ := gates_est _ _ _ _ _ hg2
+              obtain ⟨hs, hu'⟩ := updO_ok f hu
+              have hp' : st.present = true ∧ f.getE ≠ .miss := by
+                simp only [Bool.or_eq_true, Bool.not_eq_true', beq_iff_eq, not_or] at hp
+                exact ⟨by simpa using hp.1, hp.2⟩
+              have hge : f.getE = .ok := by
+                have h2 : f.getE ≠ .err := by simpa using hg
+                cases hgg : f.getE <;> simp_all
+              refine ⟨hp'.1, by simpa using hd, ?_, p, hf, ho, hl, hc, hu', hs, hge⟩
+              intro hf'; subst hf'; simpa using hv
 
 theorem envStep_verif (a d : Bool) (st : RevSt) : (envStep a d st).verif = st.verif := by
   unfold envStep
@@ -196,34 +246,251 @@ theorem envStep_verif (a d : Bool) (st : RevSt) : (envStep a d st).verif = st.ve
 
 theorem gates_verif (r : Rev) (f : Faults) (st : RevSt) (p : Pkg) : (gates r f st p).1.verif = st.verif := by
   unfold gates
+  repeat' split
+  all_goals first | rfl | exact setHealth_verif _ _ _
+
+theorem install_verif (fixed : Bool) (r : Rev) (f : Faults) (c : Cache) (st : RevSt) :
+    (install fixed r f c st).2.1.verif = st.verif := by
+  unfold install
   split
-  · rfl
   · split
+    · exact setHealth_verif _ _ _
     · rfl
-    · split
-      · rfl
-      · rfl
-      · split
-        · rfl
-        · split <;> rfl
+  · exact setHealth_verif _ _ _
+  · exact gates_verif _ _ _ _
 
 /-- the revision controller never writes the Verified condition -/
 theorem recStep_verif (fixed feature : Bool) (r : Rev) (f : Faults) (c : Cache) (st : RevSt) :
     (recStep fixed feature r f c st).2.1.verif = st.verif := by
   unfold recStep
+  repeat' split
+  all_goals first | rfl | exact install_verif _ _ _ _ _
+
+/-- a third party never sets Verified to True (only the signature controller does) -/
+theorem applyEnv_verif (e : Env) (st : RevSt) (h : (applyEnv e st).verif.isTrue = true) : st.verif.isTrue = true := by
+  cases e <;> simp [applyEnv, Verif.isTrue] at h ⊢ <;> exact h
+
+/-! ### a stale read / a concurrent writer -/
+
+theorem gates_stale (r : Rev) (f : Faults) (st : RevSt) (p : Pkg) (hs : f.stale = true) :
+    (gates r f st p).1 = st ∧ (gates r f st p).2.est = none := by
+  have hu := updO_stale f hs
+  unfold gates
   split
-  · rfl
+  · exact ⟨setHealth_stale _ _ _ hs, rfl⟩
   · split
-    · split <;> rfl
+    · exact ⟨setHealth_stale _ _ _ hs, rfl⟩
     · split
-      · split <;> rfl
-      · simp only []
-        split
-        · rfl
+      · exact ⟨rfl, rfl⟩
+      · exact ⟨setHealth_stale _ _ _ hs, rfl⟩
+      · rename_i h; exact absurd h hu
+
+theorem install_stale (fixed : Bool) (r : Rev) (f : Faults) (c : Cache) (st : RevSt) (hs : f.stale = true) :
+    (install fixed r f c st).2.1 = st ∧ (install fixed r f c st).2.2.est = none := by
+  unfold install
+  split
+  · split
+    · exact ⟨setHealth_stale _ _ _ hs, rfl⟩
+    · exact ⟨rfl, rfl⟩
+  · exact ⟨setHealth_stale _ _ _ hs, rfl⟩
+  · exact gates_stale _ _ _ _ hs
+
+/-- When the object the reconciler read is not the live one (a third party wrote in
+between, or the informer cache lagged), none of its writes lands and `Establish` is not
+reached: the revision state it returns is the one it read. -/
+theorem recStep_stale (fixed feature : Bool) (r : Rev) (f : Faults) (c : Cache) (st : RevSt) (hs : f.stale = true) :
+    (recStep fixed feature r f c st).2.1 = st ∧ (recStep fixed feature r f c st).2.2.est = none := by
+  have hfin := finO_stale f hs
+  have hst : f.statO = true := by simp [Faults.statO, hs]
+  unfold recStep
+  simp only [hst, if_true]
+  split
+  · exact ⟨rfl, rfl⟩
+  · split
+    · exact ⟨rfl, rfl⟩
+    · split
+      · split
+        · exact ⟨rfl, rfl⟩
         · split
-          · split <;> rfl
-          · rfl
-          · simp only []; rw [gates_verif]
+          · rename_i h; exact absurd h hfin
+          · exact ⟨rfl, rfl⟩
+          · exact ⟨rfl, rfl⟩
+          · exact ⟨rfl, rfl⟩
+      · split
+        · split <;> exact ⟨rfl, rfl⟩
+        · cases hf : st.finalizer
+          · simp only [Bool.false_eq_true, if_false]
+            split
+            · exact ⟨rfl, rfl⟩
+            · exact ⟨rfl, rfl⟩
+            · exact ⟨rfl, rfl⟩
+            · rename_i h; exact absurd h hfin
+          · have hst' : ({ st with finalizer := true } : RevSt) = st := by cases st; simp_all
+            simp only [if_true]
+            split
+            · exact ⟨hst', rfl⟩
+            · rw [hst']; exact install_stale _ _ _ _ _ hs
+
+/-! ### health and object references -/
+
+theorem setHealth_healthy (f : Faults) (st : RevSt) (h : (setHealth f st .unhealthy).health = .healthy) :
+    st.health = .healthy := by
+  unfold setHealth at h
+  split at h
+  · exact h
+  · cases h
+
+theorem setHealth_refs (f : Faults) (st : RevSt) (x : Health) : (setHealth f st x).refs = st.refs := by
+  unfold setHealth; split <;> rfl
+
+/-- the gates make a revision Healthy only by a successful Establish whose status update lands -/
+theorem gates_health (r : Rev) (f : Faults) (st : RevSt) (p : Pkg)
+    (h : (gates r f st p).1.health = .healthy) :
+    st.health = .healthy ∨ ((gates r f st p).2.est = some p.objs ∧ f.est = false ∧ f.statO = false) := by
+  generalize hres : gates r f st p = res at h ⊢
+  unfold gates at hres
+  split at hres
+  · subst hres; exact Or.inl (setHealth_healthy _ _ h)
+  · split at hres
+    · subst hres; exact Or.inl (setHealth_healthy _ _ h)
+    · split at hres
+      · subst hres; exact Or.inl h
+      · subst hres; exact Or.inl (setHealth_healthy _ _ h)
+      · split at hres
+        · split at hres
+          · subst hres; exact Or.inl h
+          · subst hres; cases h
+        · split at hres
+          · split at hres
+            · subst hres; exact Or.inl h
+            · subst hres; exact Or.inl (setHealth_healthy _ _ h)
+          · rename_i hne
+            split at hres
+            · subst hres; exact Or.inl h
+            · rename_i hns
+              subst hres
+              exact Or.inr ⟨rfl, by simpa using hne, by simpa using hns⟩
+
+/-- the gates change the object references only together with making the revision Healthy -/
+theorem gates_refs (r : Rev) (f : Faults) (st : RevSt) (p : Pkg) :
+    (gates r f st p).1.refs = st.refs ∨ ((gates r f st p).2.est = some p.objs ∧ f.est = false ∧ f.statO = false) := by
+  generalize hres : gates r f st p = res
+  unfold gates at hres
+  split at hres
+  · subst hres; exact Or.inl (setHealth_refs _ _ _)
+  · split at hres
+    · subst hres; exact Or.inl (setHealth_refs _ _ _)
+    · split at hres
+      · subst hres; exact Or.inl rfl
+      · subst hres; exact Or.inl (setHealth_refs _ _ _)
+      · split at hres
+        · split at hres <;> (subst hres; exact Or.inl rfl)
+        · split at hres
+          · split at hres
+            · subst hres; exact Or.inl rfl
+            · subst hres; exact Or.inl (setHealth_refs _ _ _)
+          · rename_i hne
+            split at hres
+            · subst hres; exact Or.inl rfl
+            · rename_i hns
+              subst hres
+              exact Or.inr ⟨rfl, by simpa using hne, by simpa using hns⟩
+
+theorem install_health (fixed : Bool) (r : Rev) (f : Faults) (c : Cache) (st : RevSt)
+    (h : (install fixed r f c st).2.1.health = .healthy) :
+    st.health = .healthy ∨ ((install fixed r f c st).2.2.est ≠ none ∧ f.est = false ∧ f.statO = false) := by
+  generalize hres : install fixed r f c st = res at h ⊢
+  unfold install at hres
+  split at hres
+  · split at hres
+    · subst hres; exact Or.inl (setHealth_healthy _ _ h)
+    · subst hres; exact Or.inl h
+  · subst hres; exact Or.inl (setHealth_healthy _ _ h)
+  · subst hres
+    rcases gates_health _ _ _ _ h with h1 | ⟨h1, h2, h3⟩
+    · exact Or.inl h1
+    · exact Or.inr ⟨by simp only []; rw [h1]; simp, h2, h3⟩
+
+theorem install_refs (fixed : Bool) (r : Rev) (f : Faults) (c : Cache) (st : RevSt) :
+    (install fixed r f c st).2.1.refs = st.refs ∨ ((install fixed r f c st).2.2.est ≠ none ∧ f.est = false ∧ f.statO = false) := by
+  generalize hres : install fixed r f c st = res
+  unfold install at hres
+  split at hres
+  · split at hres
+    · subst hres; exact Or.inl (setHealth_refs _ _ _)
+    · subst hres; exact Or.inl rfl
+  · subst hres; exact Or.inl (setHealth_refs _ _ _)
+  · rename_i c' p heq
+    subst hres
+    rcases gates_refs r f st p with h1 | ⟨h1, h2, h3⟩
+    · exact Or.inl h1
+    · exact Or.inr ⟨by simp only []; rw [h1]; simp, h2, h3⟩
+
+/-- How a reconcile can leave the revision Healthy. -/
+theorem recStep_health (fixed feature : Bool) (r : Rev) (f : Faults) (c : Cache) (st : RevSt)
+    (h : (recStep fixed feature r f c st).2.1.health = .healthy) :
+    st.health = .healthy ∨ (st.active = false ∧ st.refs > 0 ∧ f.statO = false) ∨
+    ((recStep fixed feature r f c st).2.2.est ≠ none ∧ f.est = false ∧ f.statO = false) := by
+  generalize hres : recStep fixed feature r f c st = res at h ⊢
+  unfold recStep at hres
+  split at hres
+  · subst hres; exact Or.inl h
+  · split at hres
+    · subst hres; exact Or.inl h
+    · split at hres
+      · split at hres
+        · subst hres; exact Or.inl h
+        · split at hres <;> (subst hres; exact Or.inl h)
+      · split at hres
+        · split at hres
+          · split at hres
+            · subst hres; exact Or.inl h
+            · subst hres; cases h
+          · subst hres; exact Or.inl h
+        · split at hres
+          · subst hres; exact Or.inl h
+          · subst hres; exact Or.inl h
+          · subst hres; exact Or.inl h
+          · split at hres
+            · rename_i hsc
+              split at hres
+              · subst hres; exact Or.inl h
+              · rename_i hns
+                subst hres
+                right; left
+                simp only [Bool.and_eq_true, Bool.not_eq_true', decide_eq_true_eq] at hsc
+                exact ⟨hsc.1, hsc.2, by simpa using hns⟩
+            · subst hres
+              rcases install_health _ _ _ _ _ h with h1 | h1
+              · exact Or.inl h1
+              · exact Or.inr (Or.inr h1)
+
+/-- How a reconcile can change the object references of a revision. -/
+theorem recStep_refs (fixed feature : Bool) (r : Rev) (f : Faults) (c : Cache) (st : RevSt) :
+    (recStep fixed feature r f c st).2.1.refs = st.refs ∨
+    ((recStep fixed feature r f c st).2.2.est ≠ none ∧ f.est = false ∧ f.statO = false) := by
+  generalize hres : recStep fixed feature r f c st = res
+  unfold recStep at hres
+  split at hres
+  · subst hres; exact Or.inl rfl
+  · split at hres
+    · subst hres; exact Or.inl rfl
+    · split at hres
+      · split at hres
+        · subst hres; exact Or.inl rfl
+        · split at hres <;> (subst hres; exact Or.inl rfl)
+      · split at hres
+        · split at hres
+          · split at hres <;> (subst hres; exact Or.inl rfl)
+          · subst hres; exact Or.inl rfl
+        · split at hres
+          · subst hres; exact Or.inl rfl
+          · subst hres; exact Or.inl rfl
+          · subst hres; exact Or.inl rfl
+          · split at hres
+            · split at hres <;> (subst hres; exact Or.inl rfl)
+            · subst hres
+              exact install_refs fixed r f c { st with finalizer := true }
 
 /-! ### locality (reconciles of revisions with different cache paths do not interfere) -/
 
@@ -269,55 +536,133 @@ theorem fetch_local (fixed : Bool) (r : Rev) (f : Faults) (c c' : Cache) (h : c 
 
 theorem recStep_frame (fixed feature : Bool) (r : Rev) (f : Faults) (c : Cache) (st : RevSt) (k : String)
     (h1 : k ≠ r.key) (h2 : k ≠ r.id) : (recStep fixed feature r f c st).1 k = c k := by
-  unfold recStep
-  split
-  · rfl
-  · split
-    · split
-      · rfl
-      · simp [Cache.erase, h1]
-    · split
-      · split <;> rfl
-      · simp only []
-        split
-        · rfl
-        · have := fetch_frame fixed r f c k h1 h2
-          split <;> rename_i heq <;> rw [heq] at this <;> exact this
+  rcases recStep_cache_cases fixed feature r f c st with h | h | h <;> rw [h]
+  · simp [Cache.erase, h1]
+  · exact fetch_frame fixed r f c k h1 h2
+
+theorem install_local (fixed : Bool) (r : Rev) (f : Faults) (c c' : Cache) (st : RevSt)
+    (h : c r.id = c' r.id) (h' : c r.key = c' r.key) :
+    (install fixed r f c st).2 = (install fixed r f c' st).2 := by
+  obtain ⟨e1, _, _⟩ := fetch_local fixed r f c c' h h'
+  unfold install
+  cases h1 : fetch fixed r f c with
+  | mk ca fa =>
+    cases h2 : fetch fixed r f c' with
+    | mk cb fb =>
+      rw [h1, h2] at e1
+      simp only [] at e1
+      subst e1
+      cases fa with
+      | stop res u => rfl
+      | parsed p => cases p <;> rfl
 
 theorem recStep_local (fixed feature : Bool) (r : Rev) (f : Faults) (c c' : Cache) (st : RevSt)
     (h : c r.id = c' r.id) (h' : c r.key = c' r.key) :
     (recStep fixed feature r f c st).2 = (recStep fixed feature r f c' st).2 ∧
     (recStep fixed feature r f c st).1 r.id = (recStep fixed feature r f c' st).1 r.id ∧
     (recStep fixed feature r f c st).1 r.key = (recStep fixed feature r f c' st).1 r.key := by
-  obtain ⟨e1, e2, e3⟩ := fetch_local fixed r f c c' h h'
+  obtain ⟨_, e2, e3⟩ := fetch_local fixed r f c c' h h'
+  have hi := fun st' => install_local fixed r f c c' st' h h'
+  have hk : (c.erase r.key) r.id = (c'.erase r.key) r.id := by
+    by_cases hk : r.id = r.key
+    · simp [Cache.erase, hk]
+    · simp [Cache.erase, hk, h]
   unfold recStep
-  split
-  · exact ⟨rfl, h, h'⟩
-  · split
+  repeat' split
+  all_goals first
+    | exact ⟨rfl, h, h'⟩
+    | exact ⟨rfl, hk, by simp [Cache.erase]⟩
+    | (refine ⟨hi _, ?_, ?_⟩
+       · rw [install_cache, install_cache]; exact e2
+       · rw [install_cache, install_cache]; exact e3)
+
+/-! ### the ImageConfig store -/
+
+/-- `m` is the length of a prefix of `image` declared by a valid config among `cs` -/
+def MatchLen (valid : ImgCfg → Bool) (image : String) (cs : List ImgCfg) (m : Nat) (c : ImgCfg) : Prop :=
+  c ∈ cs ∧ valid c = true ∧ ∃ p ∈ c.prefixes, p.isPrefixOf image = true ∧ p.utf8ByteSize = m ∧ 0 < m
+
+/-- invariant of the two loops: the accumulator is (0, none), or (m, some c) with a
+witness; and every prefix already scanned is no longer than the accumulator -/
+def AccOK (valid : ImgCfg → Bool) (image : String) (cs : List ImgCfg) (acc : Nat × Option ImgCfg) : Prop :=
+  (acc = (0, none)) ∨ ∃ c, acc.2 = some c ∧ MatchLen valid image cs acc.1 c
+
+theorem scanPrefixes_mono (image : String) (c : ImgCfg) (ps : List String) (acc : Nat × Option ImgCfg) :
+    acc.1 ≤ (scanPrefixes image c ps acc).1 := by
+  induction ps generalizing acc with
+  | nil => exact Nat.le_refl _
+  | cons p ps ih =>
+    simp only [scanPrefixes]
+    split
+    · rename_i h
+      simp only [Bool.and_eq_true, decide_eq_true_eq] at h
+      exact Nat.le_trans (Nat.le_of_lt h.2) (ih (p.utf8ByteSize, some c))
+    · exact ih _
+
+theorem scanPrefixes_ge (image : String) (c : ImgCfg) (ps : List String) (acc : Nat × Option ImgCfg)
+    (p : String) (hp : p ∈ ps) (hm : p.isPrefixOf image = true) :
+    p.utf8ByteSize ≤ (scanPrefixes image c ps acc).1 := by
+  induction ps generalizing acc with
+  | nil => cases hp
+  | cons q qs ih =>
+    simp only [scanPrefixes]
+    rcases List.mem_cons.mp hp with rfl | hp'
     · split
-      · exact ⟨rfl, h, h'⟩
-      · refine ⟨rfl, ?_, by simp [Cache.erase]⟩
-        by_cases hk : r.id = r.key
-        · simp [Cache.erase, hk]
-        · simp [Cache.erase, hk, h]
-    · split
-      · split <;> exact ⟨rfl, h, h'⟩
-      · simp only []
-        split
-        · exact ⟨rfl, h, h'⟩
-        · cases h1 : fetch fixed r f c with
-          | mk ca fa =>
-            cases h2 : fetch fixed r f c' with
-            | mk cb fb =>
-              rw [h1, h2] at e1 e2 e3
-              simp only [] at e1 e2 e3
-              subst e1
-              cases fa with
-              | stop res u => exact ⟨rfl, e2, e3⟩
-              | parsed p =>
-                cases p with
-                | none => exact ⟨rfl, e2, e3⟩
-                | some p => exact ⟨rfl, e2, e3⟩
+      · exact scanPrefixes_mono image c qs (p.utf8ByteSize, some c)
+      · rename_i h
+        simp only [Bool.and_eq_true, decide_eq_true_eq, not_and, Nat.not_lt] at h
+        exact Nat.le_trans (h hm) (scanPrefixes_mono _ _ _ _)
+    · exact ih _ hp'
+
+theorem scanPrefixes_ok (valid : ImgCfg → Bool) (image : String) (cs : List ImgCfg) (c : ImgCfg)
+    (hc : c ∈ cs) (hv : valid c = true) (ps : List String) (hps : ∀ p ∈ ps, p ∈ c.prefixes)
+    (acc : Nat × Option ImgCfg) (h : AccOK valid image cs acc) :
+    AccOK valid image cs (scanPrefixes image c ps acc) := by
+  induction ps generalizing acc with
+  | nil => exact h
+  | cons p ps ih =>
+    simp only [scanPrefixes]
+    apply ih (fun q hq => hps q (List.mem_cons_of_mem _ hq))
+    split
+    · rename_i hcond
+      simp only [Bool.and_eq_true, decide_eq_true_eq] at hcond
+      exact Or.inr ⟨c, rfl, hc, hv, p, hps p List.mem_cons_self, hcond.1, rfl, Nat.lt_of_le_of_lt (Nat.zero_le _) hcond.2⟩
+    · exact h
+
+theorem scanCfgs_mono (valid : ImgCfg → Bool) (image : String) (cs : List ImgCfg) (acc : Nat × Option ImgCfg) :
+    acc.1 ≤ (scanCfgs valid image cs acc).1 := by
+  induction cs generalizing acc with
+  | nil => exact Nat.le_refl _
+  | cons c cs ih =>
+    simp only [scanCfgs]
+    split
+    · exact Nat.le_trans (scanPrefixes_mono _ _ _ _) (ih _)
+    · exact ih _
+
+theorem scanCfgs_ge (valid : ImgCfg → Bool) (image : String) (cs : List ImgCfg) (acc : Nat × Option ImgCfg)
+    (c : ImgCfg) (hc : c ∈ cs) (hv : valid c = true) (p : String) (hp : p ∈ c.prefixes) (hm : p.isPrefixOf image = true) :
+    p.utf8ByteSize ≤ (scanCfgs valid image cs acc).1 := by
+  induction cs generalizing acc with
+  | nil => cases hc
+  | cons d ds ih =>
+    simp only [scanCfgs]
+    rcases List.mem_cons.mp hc with rfl | hc'
+    · simp only [hv, if_true]
+      exact Nat.le_trans (scanPrefixes_ge _ _ _ _ p hp hm) (scanCfgs_mono _ _ _ _)
+    · exact ih _ hc'
+
+theorem scanCfgs_ok (valid : ImgCfg → Bool) (image : String) (all cs : List ImgCfg) (hsub : ∀ c ∈ cs, c ∈ all)
+    (acc : Nat × Option ImgCfg) (h : AccOK valid image all acc) :
+    AccOK valid image all (scanCfgs valid image cs acc) := by
+  induction cs generalizing acc with
+  | nil => exact h
+  | cons c cs ih =>
+    simp only [scanCfgs]
+    apply ih (fun d hd => hsub d (List.mem_cons_of_mem _ hd))
+    split
+    · rename_i hv
+      exact scanPrefixes_ok valid image all c (hsub c List.mem_cons_self) hv c.prefixes (fun _ h => h) acc h
+    · exact h
 
 /-! ### histories -/
 
@@ -325,7 +670,8 @@ theorem recStep_local (fixed feature : Bool) (r : Rev) (f : Faults) (c c' : Cach
 theorem step_inv (feature : Bool) (revs : List Rev) (hc : Compat revs) (w : World) (h : Inv revs w.cache) (s : Step) :
     Inv revs (w.step true feature revs s).1.cache := by
   cases s with
-  | verify i cfg valid =>
+  | configs cfgs => exact h
+  | verify i sf =>
     simp only [World.step]
     split <;> exact h
   | reconcile i active deleted f =>
@@ -353,10 +699,11 @@ theorem run_inv (feature : Bool) (revs : List Rev) (hc : Compat revs) (steps : L
     simp only [World.run]
     exact ih _ (step_inv feature revs hc w h s)
 
-/-- the outcome of step `s` of a history, paired with the world it started from -/
+/-- the revision a step is about (`configs` steps are about none; 0 by convention) -/
 def Step.idx : Step → Nat
   | .reconcile i _ _ _ => i
-  | .verify i _ _ => i
+  | .verify i _ => i
+  | .configs _ => 0
 
 /-- Every (step, outcome) pair of a run satisfies `P`, provided `P` holds for a step
 taken from any world satisfying the invariant. -/
@@ -378,5 +725,49 @@ theorem run_length (fixed feature : Bool) (revs : List Rev) (steps : List Step) 
   induction steps generalizing w with
   | nil => rfl
   | cons s ss ih => simp [World.run, ih]
+
+/-- the world before step `k` of a history -/
+def worldAt (fixed feature : Bool) (revs : List Rev) (w : World) (steps : List Step) (k : Nat) : World :=
+  (World.run fixed feature revs w (steps.take k)).1
+
+theorem run_append (fixed feature : Bool) (revs : List Rev) (w : World) (a b : List Step) :
+    World.run fixed feature revs w (a ++ b) =
+      ((World.run fixed feature revs (World.run fixed feature revs w a).1 b).1,
+       (World.run fixed feature revs w a).2 ++ (World.run fixed feature revs (World.run fixed feature revs w a).1 b).2) := by
+  induction a generalizing w with
+  | nil => simp [World.run]
+  | cons s ss ih => simp only [List.cons_append, World.run, ih, List.cons_append]
+
+theorem worldAt_succ (fixed feature : Bool) (revs : List Rev) (w : World) (steps : List Step) (k : Nat) (s : Step)
+    (hs : steps[k]? = some s) :
+    worldAt fixed feature revs w steps (k + 1) = ((worldAt fixed feature revs w steps k).step fixed feature revs s).1 := by
+  unfold worldAt
+  have hk : k < steps.length := by
+    rcases Nat.lt_or_ge k steps.length with h | h
+    · exact h
+    · rw [List.getElem?_eq_none h] at hs; cases hs
+  have : steps.take (k + 1) = steps.take k ++ [s] := by
+    rw [List.take_add_one, hs]; rfl
+  rw [this, run_append]
+  simp [World.run]
+
+/-- the outcome of step `n` is that of the step taken from the world before it -/
+theorem run_out (fixed feature : Bool) (revs : List Rev) (w : World) (steps : List Step) (n : Nat) (s : Step) (o : Out)
+    (hs : steps[n]? = some s) (ho : (World.run fixed feature revs w steps).2[n]? = some o) :
+    o = ((worldAt fixed feature revs w steps n).step fixed feature revs s).2 := by
+  induction steps generalizing w n with
+  | nil => simp at hs
+  | cons s0 ss ih =>
+    cases n with
+    | zero =>
+      simp only [List.getElem?_cons_zero, Option.some.injEq] at hs
+      subst hs
+      simp only [World.run, List.getElem?_cons_zero, Option.some.injEq] at ho
+      simp [worldAt, World.run, ho]
+    | succ n =>
+      simp only [List.getElem?_cons_succ] at hs
+      simp only [World.run, List.getElem?_cons_succ] at ho
+      have := ih (w.step fixed feature revs s0).1 n hs ho
+      simpa [worldAt, World.run] using this
 
 end Xp.C15
